@@ -167,6 +167,9 @@ class Loss:
                 tot = tot + c[1] * p + c[2] * p * p + c[3] * y * p
         if kind in ('poly', 'lin'):
             tot = tot + c[0] * y
+        off = self.spec.get('offset')
+        if off:
+            tot = tot + off
         return tot
 
     def nonlinear(self):
